@@ -985,6 +985,8 @@ Proof.
     rewrite Hs. eapply for_case; eauto.
   - eapply sim_break; eauto.
   - eapply sim_continue; eauto.
+  - simpl in Hwf. discriminate.
+  - simpl in Hwf. discriminate.
 Qed.
 
 Theorem sim_all : forall n, P_exec n /\ P_list n /\ P_loop n.
@@ -1005,16 +1007,47 @@ Qed.
 Lemma scope_ok_nil : scope_ok [] 0.
 Proof. split; [intros i [] | constructor]. Qed.
 
+(** cfg.go swaps a default clause that is not last with the last clause; inside the fragment the
+    default clause is last, so the compiled program is the program itself. *)
+Lemma map_norm_id l : Forall (fun s => wf s = true -> norm s = s) l -> forallb wf l = true -> map norm l = l.
+Proof.
+  induction 1 as [|s l Hs Hl IH]; simpl; intros W; [reflexivity|].
+  apply andb_prop in W. destruct W as [W1 W2]. rewrite (Hs W1), (IH W2). reflexivity.
+Qed.
+
+Lemma norm_wf s : wf s = true -> norm s = s.
+Proof.
+  induction s using stmt_ind2; simpl; intros W; try reflexivity; try discriminate.
+  - rewrite (map_norm_id b H W). reflexivity.
+  - apply andb_prop in W. destruct W as [W We]. apply andb_prop in W. destruct W as [W Wt].
+    apply andb_prop in W. destruct W as [_ Wi].
+    rewrite (map_norm_id t H0 Wt).
+    assert (Hi : match init with Some s => Some (norm s) | None => None end = init).
+    { destruct init; simpl in *; [rewrite (H Wi)|]; reflexivity. }
+    rewrite Hi. destruct e as [l|]; simpl in *; [rewrite (map_norm_id l H1 We)|]; reflexivity.
+  - repeat (apply andb_prop in W; let W' := fresh "W" in destruct W as [W W']).
+    rewrite (map_norm_id body H1 W4).
+    assert (Hi : match init with Some s => Some (norm s) | None => None end = init).
+    { destruct init; simpl in *; [rewrite (H W6)|]; reflexivity. }
+    assert (Hp : match post with Some s => Some (norm s) | None => None end = post).
+    { destruct post; simpl in *; [rewrite (H0 W5)|]; reflexivity. }
+    rewrite Hi, Hp. reflexivity.
+Qed.
+
+Lemma norm_program p : wf_program p = true -> map norm p = p.
+Proof. intros W. apply map_norm_id; [|exact W]. apply Forall_forall. intros s _. apply norm_wf. Qed.
+
 Theorem forward_simulation p n out pk :
   wf_program p = true -> GoSem.run n p = Done out pk -> exists m, Cfg.run m p = Done out pk.
 Proof.
   intros Hwf H. unfold GoSem.run in H.
   destruct (exec n (SBlock p) [] []) as [|o E' out'] eqn:Hx; [discriminate|].
   destruct (sim_all n) as [IHe _].
-  assert (G : forall q, compile p ([] ++ q) = snode_at q (SBlock p) [] 0 (mkctx None None None) []) by reflexivity.
+  assert (G : forall q, compile p ([] ++ q) = snode_at q (SBlock p) [] 0 (mkctx None None None) []).
+  { intros q. unfold compile. rewrite (norm_program p Hwf). reflexivity. }
   destruct (IHe (SBlock p) (compile p) [] 0 (mkctx None None None) [] [] frame0 [] o E' out' Hx G Hwf
               (Forall2_nil _) scope_ok_nil) as [r [R Post]].
-  unfold Cfg.run, entry. change (sstart (SBlock p) []) with (block_start p []) in R.
+  unfold Cfg.run, entry. rewrite (norm_program p Hwf). change (sstart (SBlock p) []) with (block_start p []) in R.
   destruct o; simpl in Post.
   - destruct Post as [fr' [-> _]]. inversion H; subst. eapply reach_run_end; eauto.
   - destruct Post as [fr' [-> _]]. inversion H; subst. eapply reach_run_end; eauto.
